@@ -106,6 +106,8 @@ def _interval(rng, kind):
         elif r < 0.7: a, b = -DBL_MAX * rng.uniform(0.1, 0.49), DBL_MAX * rng.uniform(0.1, 0.49)      # nothing overflows
         elif r < 0.85: a, b = rng.choice([(0.0, DBL_MAX), (-DBL_MAX, 0.0), (0.0, DBL_MAX * rng.uniform(0.5, 1))])
         else: a, b = DBL_MAX * rng.uniform(0.1, 0.24), DBL_MAX * rng.uniform(0.3, 0.49)
+    elif kind == "huge-wide":       # representable end points of opposite sign whose distance exceeds DBL_MAX (requests with n >= 2 only:
+        a, b = -DBL_MAX * rng.uniform(0.55, 1.0), DBL_MAX * rng.uniform(0.55, 1.0)   # every node and weight is representable)
     else:
         raise ValueError(kind)
     return a, b
@@ -144,8 +146,9 @@ def _int_poly_case(rng, n, a, b, tags):
     deg = rng.randint(0, min(2 * n - 1, 12))
     co = [rng.choice([0.0, 1.0, -1.0, rng.uniform(-3, 3)]) / 2.0 ** k for k in range(deg + 1)]
     if co[-1] == 0.0: co[-1] = 1.0 / 2.0 ** deg
+    if e >= 1000: co = [c / 4096.0 for c in co]      # |p| <= 2^-8 on the interval: the integral and every partial sum stay below DBL_MAX
     F = sum(abs(c) * 2.0 ** k for k, c in enumerate(co))
-    return Case(f"int {n} {hx(a)} {hx(b)} {_poly_fexpr(co, e)}", tags, tol=(1e-12, 1e-13 * abs(0.5 * b - 0.5 * a) * 2 * F), info={"poly": co, "e": e})
+    return Case(f"int {n} {hx(a)} {hx(b)} {_poly_fexpr(co, e)}", tags, tol=(1e-12, 1e-13 * abs(0.5 * b - 0.5 * a) * F), info={"poly": co, "e": e})
 
 
 def _rule_case(rng, n, kind, extra=()):
@@ -186,6 +189,8 @@ def generate(rng, tier):
             cs.append(_rule_case(rng, n, "subnormal"))
         if n <= 8 or rng.random() < (0.3 if big else 0.1):
             cs.append(_rule_case(rng, n, "huge-edge"))
+        if n >= 2 and (n <= 6 or rng.random() < (0.15 if big else 0.05)):
+            cs.append(_rule_case(rng, n, "huge-wide"))
         if n <= 64 or rng.random() < 0.1:
             cs.append(Case(f"rule_default {n}", ("rule_default", "odd" if n % 2 else "even"), tol=(1e-13, 1e-15)))
     cs.append(Case("rule 0 -0x1p+0 0x1p+0", ("rule", "n=0")))
@@ -202,7 +207,8 @@ def generate(rng, tier):
     # the same at every magnitude (scale ladder, subnormal lengths, top of the range) ...
     for _ in range(2400 if big else 400):
         n = rng.choice(INT_NS + [rng.randint(1, 100)])
-        kind = rng.choice(["scaled", "scaled", "scaled", "tiny", "subnormal", "huge-edge"])
+        kind = rng.choice(["scaled", "scaled", "scaled", "scaled", "tiny", "tiny", "subnormal", "subnormal", "huge-edge", "huge-edge", "huge-wide"])
+        if kind == "huge-wide" and n == 1: n = 2
         a, b = _interval(rng, kind)
         if rng.random() < 0.25: a, b = b, a
         if rng.random() < 0.7:
@@ -487,5 +493,7 @@ def predicates(c, io):
             a, b = float.fromhex(t[2]), float.fromhex(t[3])
             # in halves, so that a length up to 2*DBL_MAX is not formed
             hv, hl = 0.5 * v[0], 0.5 * b - 0.5 * a
-            if not (abs(hv - hl) <= abs(hl) * (W(n) + (n + 2) * 2 * EPS) + (n + 2) * SUBQ): out.append(("values:sum" + _region(a, b), f"n={n}: unit values on [{a!r},{b!r}] give {v[0]!r}, b-a = {b-a!r}"))
+            rel = W(n) + (n + 2) * 2 * EPS
+            if math.isinf(hv) and abs(hl) * (1 + rel) >= 0.5 * DBL_MAX and hv * hl > 0: pass      # b-a within rounding of DBL_MAX: the sum may round to inf
+            elif not (abs(hv - hl) <= abs(hl) * rel + (n + 2) * SUBQ): out.append(("values:sum" + _region(a, b), f"n={n}: unit values on [{a!r},{b!r}] give {v[0]!r}, b-a = {b-a!r}"))
     return out
